@@ -319,7 +319,7 @@ func dischargeAll(obls []*Obligation, cfg solveConfig) []*SolveResult {
 		for k, o := range groups[n] {
 			q := buildQuery(o.Hyps, o.Goal, o.Expect == "sat", cfg.axioms, true)
 			fn := filepath.Join(cfg.outDir, sanitizeFile(n)+fmt.Sprintf(".%d.smt2", k+1))
-			os.WriteFile(fn, []byte("; obligation: "+n+"\n"+q), 0o644)
+			os.WriteFile(fn, []byte("; obligation: "+n+"\n; statement at: "+o.Note+"\n"+q), 0o644)
 			j.files = append(j.files, fn)
 			j.obl = append(j.obl, o)
 		}
